@@ -35,6 +35,7 @@ for d in sys.argv[1:]:
         demo_cmd = meta.get("demo_cmd", "")
         m2 = re.search(r"(cargo\s+(test|run)\b.*)$", demo_cmd)
         demo_cmd = m2.group(1) if m2 else demo_cmd
+        demo_cmd = re.split(r"\s{2,}\(|\s+#\s", demo_cmd)[0].strip()
         demo_cmd = demo_cmd.replace("/tmp/mut/%s" % meta.get("property", "C00"), wt)
         res["demo_cmd"] = demo_cmd
         rc, out, _ = run("git apply %s/demo.diff" % d, wt)
